@@ -299,6 +299,19 @@ def _ou(ctx: Ctx) -> FuncInfo:
     return ctx.prog.func(GEN, "MetadataGenerator._optimize_union")
 
 
+def _routing_scope(ctx: Ctx) -> List[FuncInfo]:
+    """_optimize_union plus the helper (a generator of the same class) that feeds its routing loop, if there is one."""
+    f = _ou(ctx)
+    out = [f]
+    for n in walk_no_nested(f.node):
+        if isinstance(n, ast.For) and isinstance(n.iter, ast.Call):
+            for t in ctx.cg.resolve_call(f, f.module, n.iter):
+                if isinstance(t, FuncInfo) and t.relpath == f.relpath and t not in out and any(
+                        isinstance(x, (ast.Yield, ast.YieldFrom)) for x in walk_no_nested(t.node)):
+                    out.append(t)
+    return out
+
+
 def rule_opt3(ctx: Ctx) -> RuleResult:
     rr = RuleResult("OPT-3", "an Optional member of a union hoists to an Optional result", floor=2)
     f = _ou(ctx)
@@ -306,16 +319,17 @@ def rule_opt3(ctx: Ctx) -> RuleResult:
     rr.instances += 1
     ok = False
     why = "no branch unwraps DOptional members"
-    for n in walk_no_nested(f.node):
+    for n in [x for g in _routing_scope(ctx) for x in walk_no_nested(g.node)]:
         if isinstance(n, ast.If) and norm(n.test).startswith("isinstance(") and "DOptional" in norm(n.test):
             unwrap = [s for s in n.body if isinstance(s, ast.Assign) and isinstance(s.value, ast.Attribute) and s.value.attr == "type"]
-            addnull = [s for s in n.body if isinstance(s, ast.Expr) and isinstance(s.value, ast.Call) and
-                       isinstance(s.value.func, ast.Attribute) and s.value.func.attr == "append" and norm(s.value.args[0]) == "Null"]
+            addnull = [s for s in n.body if isinstance(s, ast.Expr) and ((isinstance(s.value, ast.Call) and
+                       isinstance(s.value.func, ast.Attribute) and s.value.func.attr == "append" and norm(s.value.args[0]) == "Null")
+                       or (isinstance(s.value, ast.Yield) and s.value.value is not None and norm(s.value.value) == "Null"))]
             if unwrap:
                 ok = bool(addnull)
                 why = "" if ok else ("the member is unwrapped but Null is not added to the candidates: nullability of that "
                                      "member is forgotten (e.g. a nullable element type inside a list union)")
-                lst = norm(addnull[0].value.func.value) if addnull else None
+                lst = norm(addnull[0].value.func.value) if addnull and isinstance(addnull[0].value, ast.Call) else None
     rr.ob(f.relpath, f.qualname, "if isinstance(item, DOptional): item = item.type; <candidates>.append(Null)",
           "stripping Optional from a union member keeps a Null candidate in its place", DISCHARGED if ok else VIOLATED,
           "Null appended in the unwrapping branch" if ok else why, f.node.lineno)
@@ -415,6 +429,9 @@ def rule_widen1(ctx: Ctx) -> RuleResult:
         if t_.endswith(".types") or (isinstance(e, ast.Call) and norm(e.func) in ("list", "tuple", "iter") and e.args
                                       and norm(e.args[0]).endswith(".types")):
             return True
+        if isinstance(e, ast.Call) and e.args and _is_members(e.args[0], fnode) and any(
+                isinstance(t, FuncInfo) and t in _routing_scope(ctx)[1:] for t in ctx.cg.resolve_call(f, f.module, e)):
+            return True
         if isinstance(e, ast.Name):
             ds = ctx.defs_reaching(f, e, e.id) or []
             return bool(ds) and all(isinstance(d, (ast.Assign, ast.AnnAssign)) and d.value is not None and
@@ -427,6 +444,22 @@ def rule_widen1(ctx: Ctx) -> RuleResult:
     for x in ast.walk(route):
         if isinstance(x, ast.Call) and isinstance(x.func, ast.Attribute) and x.func.attr == "append" and isinstance(x.func.value, ast.Name):
             cats.add(x.func.value.id)
+    # the generator that feeds the routing loop hands on every member (itself, or taken apart) on every path
+    from ..paths import enumerate_paths as _ep
+    for h in _routing_scope(ctx)[1:]:
+        hl = next((n for n in walk_no_nested(h.node) if isinstance(n, ast.For)), None)
+        if hl is None:
+            raise AnalysisError(f"WIDEN-2: helper {h.qualname} has no loop over the members")
+        for pth in _ep(hl.body):
+            if pth.exit == "raise":
+                continue
+            rr.instances += 1
+            passes_on = any(isinstance(x, ast.YieldFrom) or (isinstance(x, ast.Yield) and x.value is not None and norm(x.value) != "Null")
+                            for s_ in pth.stmts() for x in ast.walk(s_))
+            rr.ob(h.relpath, h.qualname, pth.describe()[:90], "each union member is passed on to the categorisation (as it is, unwrapped, "
+                  "or member by member)", DISCHARGED if passes_on else VIOLATED,
+                  "passed on" if passes_on else "on this path the member yields nothing but Null: the type inside the Optional is dropped",
+                  hl.lineno)
     # WIDEN-3: what is routed is the member as unwrapped from Optional: the name bound to `<member>.type` under the Optional
     # test is the one every test and every append of the loop uses
     lv = norm(route.target)
@@ -1177,4 +1210,39 @@ def rule_nf9(ctx: Ctx) -> RuleResult:
                   f"branch for {m[0]}: `{norm(r)[:50]}` returns without simplifying what the {m[0]} holds", r.lineno)
     if n < 3:
         raise AnalysisError(f"NF-9: only {n} container branches found in optimize_type")
+    return rr
+
+
+def rule_nf10(ctx: Ctx) -> RuleResult:
+    """NF-10: a union found under an Optional member of a union is taken apart, so that its members are categorised too."""
+    rr = RuleResult("NF-10", "members of Optional[Union[..]] inside a union are categorised like direct members", floor=1)
+    scope = _routing_scope(ctx)
+    f = scope[0]
+    rr.instances += 1
+    st = ("`Union[A, Optional[Union[B, C]]]` is simplified as `Optional[Union[A, B, C]]` in one pass: B and C take part in the "
+          "int/float fold, the str / pseudo-type decision and the merging of lists; otherwise every level of such nesting needs "
+          "one more pass and a merged model (which gets two) can keep `Union[float, bool, int]` or str next to a pseudo-type")
+    unwrap_sites = []
+    for g in scope:
+        for n in walk_no_nested(g.node):
+            if isinstance(n, ast.If) and "isinstance(" in norm(n.test) and "DOptional" in norm(n.test):
+                for s_ in n.body:
+                    if isinstance(s_, ast.Assign) and isinstance(s_.value, ast.Attribute) and s_.value.attr == "type" and \
+                            isinstance(s_.targets[0], ast.Name):
+                        unwrap_sites.append((g, n, s_.targets[0].id))
+    if not unwrap_sites:
+        raise AnalysisError("NF-10: no place unwraps Optional members of a union")
+    ok = False
+    for g, n, var in unwrap_sites:
+        # after the unwrapping, the same function tests the unwrapped member for DUnion and takes its members
+        for m in walk_no_nested(g.node):
+            if isinstance(m, ast.If) and f"isinstance({var}, DUnion)" in norm(m.test) and m.lineno >= n.lineno:
+                body_txt = " ".join(norm(b) for b in m.body)
+                if f"{var}.types" in body_txt or "_extract_nested_types" in body_txt:
+                    ok = True
+    g, n, var = unwrap_sites[0]
+    rr.ob(g.relpath, g.qualname, norm(n.test), st, DISCHARGED if ok else VIOLATED,
+          "a union under an Optional contributes its own members" if ok else
+          f"`{var}` is unwrapped from Optional and routed as ONE member even when it is a union: its members are not categorised "
+          f"(e.g. [null, 's', [1.5, null, true]] next to [[1]] gives List[Optional[Union[float, bool, int]]] through the CLI)", n.lineno)
     return rr
